@@ -46,6 +46,9 @@ type Cell struct {
 	Name string
 	ID   int
 	Type types.Type // type of the stored value
+	// path condition under which the variable was declared (its Alloc ran);
+	// used to pick among same-named variables of disjoint scopes
+	AllocPC *Term
 }
 
 type DeferEntry struct {
